@@ -109,7 +109,7 @@ class C15(Prop):
     design_ref = "DESIGN.md 4 C15"
     technique = ("Coq proof over an abstract float interface (FloatOps) about hand-written models of Histogram, Matcher/DistributionBuilder "
                  "and RollingSummary; differential correspondence against the real code with the model evaluated on Coq primitive binary64 floats")
-    level_text = ("Theorems (Coq, any FloatOps instance with a transitive <=; all inputs, histories, configurations, no size bounds). "
+    level_text = ("Theorems (Coq, any FloatOps instance with a transitive <= (and reflexive fsame for C15_spec_ok_on_model); all inputs, histories, configurations, no size bounds). "
                   "Histogram: with ascending bounds every bucket equals the number of samples <= its bound after any record/record_many sequence "
                   "(C15_bucket_counts), monotone in bound and time, every bucket <= count = number of samples, NaN in no bucket, all batchings "
                   "agree (C15_batch_equals_single). Overrides: the DistributionBuilder model (HashMap insert of sanitised matchers, sort by the "
@@ -120,7 +120,7 @@ class C15(Prop):
                   "with non-decreasing timestamps the invariant (buckets descending and >= dur apart, <= n, each holding exactly the finite samples "
                   "of its [begin, begin+dur)) holds, a snapshot contains no sample older than now-n*dur and every sample >= now-n*dur+dur (also as "
                   "multiset counts), truncate never evicts a retained bucket, count counts all adds (C15_window, C15_window_truncate_never_evicts). "
-                  "C15_spec_ok_on_model: the models' outputs satisfy the executable property for all histogram, override and rolling-summary cases. "
+                  "C15_spec_ok_on_model: the models' outputs satisfy the executable property for all histogram, override and rolling-summary cases (not for quantile-label cases). "
                   "All models are tied to /repo by running the real code and the model (on Coq primitive binary64 floats) on the same cases each "
                   "run; spec_ok is evaluated on every implementation output.")
     level_note = ("Not proved: that Coq's primitive floats satisfy the order hypotheses (would need FloatAxioms). The while loop that finds a new "
